@@ -468,6 +468,8 @@ class Gen:
                          lambda: x ** y][op]()
                     return fit(v, e.ty)
                 if t == E_CMP:
+                    if isinstance(x, str) and a[0] not in (2, 3):
+                        return None        # the constant evaluator does not order strings (ValueObj::try_cmp)
                     return [x < y, x <= y, x == y, x != y, x > y, x >= y][a[0]]
                 return (x or y) if a[0] else (x and y)
             except (ZeroDivisionError, OverflowError, TypeError):
@@ -811,7 +813,9 @@ class Gen:
         if k == "lam":
             return [self.s_lam()]
         if k == "pat":
-            return [self.s_pat()]
+            # the bound variables are printed: otherwise a wrong destructuring would go unobserved (found by mutation testing)
+            st = self.s_pat()
+            return [st, St(S_PRINT, [[self.var(i) for i in st.args[1]]])]
         if k == "pcall":
             return [self.s_pcall()]
         raise AssertionError(k)
